@@ -83,6 +83,11 @@ for _p, _t in {
     "C12": "Unbounded: Histogram1D.copy shares nothing writable for any number of bins; slices h[a:b], 2-D projections, T, +, *, / and normalize(inplace=False) are independent of their operands. ",
     "C11": "Unbounded (any number of bins): h[i] (edges and content of that bin) and h[a:b] (the selected bins with contents and errors; what is cut off goes to underflow / overflow so "
            "nothing is lost -- sum-split and sum-shift lemmas proved by induction per run; source untouched). ",
+    "C10": "Unbounded (ANY number of bins; the amount is 1, 2, 3 or 5 per configuration): merge_bins(amount) of a 1-D histogram end to end -- copy, the bin map (a Python list of symbolic "
+           "length), BinningBase.apply_bin_map, StaticBinning.__init__, _change_binning, _reshape_data, _apply_bin_map interpreted in place; the two loops over the bin map are cut at sidecar "
+           "invariants (inv-entry / inv-step obligations). Clauses from the property statement: the new bins are the runs of `amount` adjacent old bins (last run shorter), from the run's first left "
+           "edge to its last right edge; every new bin holds the run's summed content and squared error; totals (block-sum lemma proved by induction on every run) and missed counts conserved; the "
+           "source is untouched and shares nothing with the result; a gap inside a run is refused (raise condition exact in both directions) with nothing changed. ",
     "C13": "Unbounded: dtype promotion / consistency clauses of __imul__, __itruediv__, __iadd__, fill for any number of bins. ",
     "C16": "Unbounded (any number of bins): densities * widths == frequencies, widths > 0, centres, bin sizes, left / right edges, min / max edge, total width as the sum of the widths, "
            "total, cumulative frequencies as running sums ending at total and accumulated in numpy's default accumulator type. ",
